@@ -13,7 +13,9 @@ def check(ctx):
         "Full edge, the overflow list is FIFO with no overtaking, and Sender::drop flushes it oldest first; R4 StartCollect "
         "and SubmitSpans use the droppable path; R5 the three capacities are positive compile-time constants (reported); R6 a root whose StartCollect was lost still "
         "has its later span sets delivered (stale path); R7 a scope refused at the scope limit leaves a trace in the stack's "
-        "state (known finding K4: it does not, so spans recorded under the refused parent are delivered under the enclosing one).")
+        "state (known finding K4: it does not, so spans recorded under the refused parent are delivered under the enclosing one); R8 the "
+        "sampling flag of every token item is copied from its source (a root's from its SpanContext): it never depends on whether "
+        "a command could be queued.")
     ctx.not_decided = "correctness of what is delivered during an episode and recovery after the queue drains (runtime)."
     facts = ctx.facts("E")
     scopes.rule_bounded_writes(ctx, facts, "R1")
@@ -34,6 +36,10 @@ def check(ctx):
     # "every record that is delivered is still correct": a scope refused at the scope limit must not hand its local
     # operations to the enclosing scope (known finding K4)
     scopes.rule_refused_scope_masks(ctx, facts, "R7")
+    # "the only effect is that span sets submitted while it was full may be missing": whether a trace is sampled must not
+    # depend on the outcome of a send (a root that turns unsampled when its StartCollect is refused loses the whole trace)
+    from .. import provrules
+    provrules.rule_token_items(ctx, facts, "R8", fields=("is_sampled",))
     caps = scopes.rule_capacities(ctx, facts, "R5")
     ctx.analysed.setdefault("E", {})["capacities"] = caps
 
